@@ -27,6 +27,7 @@ def run(ctx):
                     ctx.cov["histogram"][k] = ctx.cov["histogram"].get(k, 0) + int(v)
         lines = fscklib.run_images(ctx, ok_drv, "crash-free", ["crash"] + sd + ["-mix", "free", "-disk", "40000", "-ops", "22"] + (["-workloads", "10", "-images", "700"] if t else ["-workloads", "2", "-images", "150"]), R, False)
         fscklib.oracle_lines(ctx, lines, "C05", "crash: harness crash -mix free -seed %d" % ctx.seed)
+        fscklib.run_blockmap(ctx, ok_drv, ["-cases", "150", "-ops", "30"] if t else ["-cases", "36", "-ops", "25"])
         fscklib.run_images(ctx, ok_drv, "seq", ["seq"] + sd + (["-seqs", "12", "-ops", "400", "-big", "-fsck", "4"] if t else ["-seqs", "3", "-ops", "200", "-big", "-fsck", "8"]), R, False)
         fscklib.run_images(ctx, ok_drv, "conc", ["conc"] + sd + (["-hists", "30", "-clients", "5", "-ops", "150"] if t else ["-hists", "6", "-clients", "4", "-ops", "100"]), R, False)
     vlib.finish(
@@ -34,11 +35,11 @@ def run(ctx):
         "PARTIAL (for all histories: sampled). Lean theorems on top of fsck_sound: at a quiescent point an accepted image has nothing half-freed, the blocks marked in use are exactly the "
         "metadata plus the blocks of objects reachable from the root, likewise the inodes (marked_eq_reachable, imarked_eq_reachable); when only the root is left only its blocks stay marked "
         "(delete_all_restores); in ANY accepted image, crash images included, a marked data block has an owner, so nothing is lost for good (no_block_lost); the running server's allocators "
-        "equal the on-disk bitmaps (alloc_sound). Ties: build-then-delete rounds on small disks (free counts must return to those of the empty file system; images checked); crash images "
+        "equal the on-disk bitmaps (alloc_sound); on the block-map model M7 (bmap/indbmap/indshrink/Shrink transliterated) truncation releases a direct pointer or an index root exactly when the shrink run visits the first index it serves, an index block beyond the accounted range is never released, and a short write leaves ShrinkSize above the block that failed (truncation_releases_visited, index_block_beyond_range_is_never_released, short_write_covers_failed_block). Ties: the block-map correspondence (pointer structure of a real file before/after WRITE, READ of a hole, truncation, incl. running out of space inside bmap); build-then-delete rounds on small disks (free counts must return to those of the empty file system; images checked); crash images "
         "taken while the shrinker frees a 770-block file: checked after recovery and again after the half-freed numbers have been reused (then nothing may be half-freed)",
         "build-then-delete rounds: files of every size class (inside a block, direct, indirect, double-indirect), sparse growth, holes filled by reads, nested directories, renames over "
         "targets, failing requests, oversized writes, disks small enough to run out of space; directed: REMOVE / RENAME-over of a file whose truncation is still running in the background; "
         "crash workload of the free mix; quiescent images of sequential and concurrent histories",
         ["as C04 for the image; free counts are read from the allocators after waiting for the shrinker threads"],
-        pending=["shrink model: a theorem that DoShrink terminates with no block beyond the size, each step a self-contained transaction"],
+        pending=["owned-set form of truncation_releases_visited for the blocks inside index blocks (the theorem covers the inode's own pointers)"],
         partial=["for all histories / crash points / schedules: sampled, not proved"])
